@@ -274,3 +274,5 @@ def run(ctx):
     trees(ctx)
     final_sizes(ctx)
     limits(ctx)
+    import genhelp
+    genhelp.run_stream(ctx, "final")
